@@ -109,6 +109,17 @@ pub struct History {
     pub chain: MoveChain,
 }
 
+/// Any of the 22 outcome values (stored outcomes are free-form: the API does not tie them to the position).
+pub fn random_outcome(rng: &mut Rng) -> Outcome {
+    let wins = [WinReason::Checkmate, WinReason::TimeForfeit, WinReason::InvalidMove, WinReason::EngineError, WinReason::Resign, WinReason::Abandon, WinReason::Unknown];
+    let draws = [DrawReason::Stalemate, DrawReason::InsufficientMaterial, DrawReason::Moves75, DrawReason::Repeat5, DrawReason::Moves50, DrawReason::Repeat3, DrawReason::Agreement, DrawReason::Unknown];
+    match rng.below(3) {
+        0 => Outcome::Win { side: Color::White, reason: *rng.pick(&wins) },
+        1 => Outcome::Win { side: Color::Black, reason: *rng.pick(&wins) },
+        _ => Outcome::Draw(*rng.pick(&draws)),
+    }
+}
+
 fn pick_cycle_move(rng: &mut Rng, cur: &MPos, legal: &[MMove], visited: &[Vec<u8>]) -> MMove {
     // prefer moves that lead back to a position already seen on the line, then quiet piece moves
     let mut back: Vec<MMove> = Vec::new();
@@ -142,10 +153,40 @@ fn pick_cycle_move(rng: &mut Rng, cur: &MPos, legal: &[MMove], visited: &[Vec<u8
 pub fn run_history(start: &MPos, seed: u64, flavor: Flavor, max_ops: usize) -> Option<History> {
     let b0 = to_board(start).ok()?;
     let mut rng = Rng::new(seed);
-    let mut ch = MoveChain::new(b0);
     let mut events: Vec<Event> = Vec::new();
     // generator-side model line (only to choose operations)
     let mut line: Vec<MPos> = vec![start.clone()];
+    // one chain in three is built through the list constructor (with 0-3 legal moves)
+    let mut ch = if rng.chance(1, 3) {
+        let mut toks: Vec<String> = Vec::new();
+        let mut p = start.clone();
+        let k = rng.below(4);
+        for _ in 0..k {
+            let lg = p.legal_moves();
+            if lg.is_empty() {
+                break;
+            }
+            let m = *rng.pick(&lg);
+            toks.push(m.uci());
+            p = p.apply(&m);
+            line.push(p.clone());
+        }
+        let text = toks.join(" ");
+        match MoveChain::from_uci_list(b0.clone(), &text) {
+            Ok(c) => {
+                events.push(Event { ev: Ev::PushList { text, ok: true, err_pos: None }, obs: observe(&c) });
+                c
+            }
+            Err(e) => {
+                // a legal list was refused: record it against a fresh chain so that the checker sees it
+                let c = MoveChain::new(b0.clone());
+                events.push(Event { ev: Ev::PushList { text, ok: false, err_pos: Some(e.pos) }, obs: observe(&c) });
+                return Some(History { start: start.clone(), events, chain: c });
+            }
+        }
+    } else {
+        MoveChain::new(b0)
+    };
     for _ in 0..max_ops {
         let cur = line.last().unwrap().clone();
         let legal = cur.legal_moves();
@@ -200,7 +241,13 @@ pub fn run_history(start: &MPos, seed: u64, flavor: Flavor, max_ops: usize) -> O
                             toks.push(m.uci());
                             p = p.apply(&m);
                         }
-                        toks.push(rng.pick(&["zzzz", "e2e5", "0000", "a1a1", "e9e4", "\u{e9}1e2"]).to_string());
+                        // the bad token: garbage, or a pseudo-legal but illegal move of that position
+                        let pbad: Vec<MMove> = { let lg = p.legal_moves(); p.pseudo_moves().into_iter().filter(|m| !lg.contains(m)).collect() };
+                        if !pbad.is_empty() && rng.chance(1, 2) {
+                            toks.push(rng.pick(&pbad).uci());
+                        } else {
+                            toks.push(rng.pick(&["zzzz", "e2e5", "0000", "a1a1", "e9e4", "\u{e9}1e2"]).to_string());
+                        }
                         let lg = p.legal_moves();
                         if !lg.is_empty() {
                             toks.push(rng.pick(&lg).uci());
@@ -293,17 +340,12 @@ pub fn run_history(start: &MPos, seed: u64, flavor: Flavor, max_ops: usize) -> O
             let ret = ch.set_auto_outcome(filter_of(f));
             events.push(Event { ev: Ev::SetAuto { filter: f, ret }, obs: observe(&ch) });
         } else if r < 97 {
-            let o = match rng.below(4) {
-                0 => None,
-                1 => Some(Outcome::Draw(DrawReason::Agreement)),
-                2 => Some(Outcome::Win { side: Color::White, reason: WinReason::Resign }),
-                _ => Some(Outcome::Win { side: Color::Black, reason: WinReason::TimeForfeit }),
-            };
+            let o = if rng.chance(1, 5) { None } else { Some(random_outcome(&mut rng)) };
             ch.reset_outcome(o);
             events.push(Event { ev: Ev::Reset(o), obs: observe(&ch) });
         } else if r < 98 {
             if !ch.is_finished() {
-                let o = Outcome::Draw(DrawReason::Unknown);
+                let o = random_outcome(&mut rng);
                 ch.set_outcome(o);
                 events.push(Event { ev: Ev::SetOutcome(o), obs: observe(&ch) });
             }
@@ -983,6 +1025,24 @@ pub fn check_c17(ctx: &mut Ctx, h: &History, case: &str, seed: u64) {
                         ctx.violation("styled_list_text", &pcase, &format!("library {:?} expected {:?}", got, want));
                         return;
                     }
+                }
+            }
+        }
+        // explicit stored outcomes (free-form in the API), on this chain and on an empty one
+        let Ok(sb) = Board::try_from(before.start) else { return };
+        for o in [None, Some(random_outcome(&mut rng)), Some(Outcome::Win { side: Color::White, reason: WinReason::Checkmate }), Some(Outcome::Win { side: Color::Black, reason: WinReason::Resign }), Some(Outcome::Draw(DrawReason::Stalemate))] {
+            for empty in [false, true] {
+                ctx.eval(1);
+                let pcase = format!("{}|styled_outcome:{:?}:{}", case, o, empty);
+                let Some(got) = ctx.guard("styled", &pcase, || {
+                    let mut c2 = if empty { MoveChain::new(sb.clone()) } else { ch.clone() };
+                    c2.reset_outcome(o);
+                    c2.styled(NumberPolicy::FromBoard, Style::San, GameStatusPolicy::Show).to_string()
+                }) else { continue };
+                let want = if empty { format_styled(&line[..1], &[], Some(line[0].fullmove as u64), 0, true, &o) } else { format_styled(&line, &moves, Some(line[0].fullmove as u64), 0, true, &o) };
+                if got != want {
+                    ctx.violation("styled_list_status_token", &pcase, &format!("library {:?} expected {:?}", got, want));
+                    return;
                 }
             }
         }
